@@ -22,6 +22,8 @@ SMOKE = [
     ('SelectCandidates', 'MC_SelectCandidates.cfg', None),
     ('SelectCandidates', 'MC_SelectCandidates_prefix.cfg', 'Disjoint'),
     ('GenerateDates', 'MC_GenerateDates_timeofday.cfg', 'MeetsContract'),
+    ('RelPeriodMech', 'MC_RelPeriod_prefix.cfg', 'MeetsContract'),
+    ('RelPeriodMech', 'MC_RelPeriod_weekend.cfg', 'WeekendIsoYear'),
 ]
 
 
